@@ -27,6 +27,13 @@ def obligations(pid):
         return json.load(f)[pid]
 
 
+def extra_modules(pid):
+    """further modules holding theorems of the property (top-level key "_imports" of obligations.json); the audit
+    file imports them, so they are built with the property's own targets"""
+    with open(os.path.join(LEAN, "obligations.json")) as f:
+        return list(json.load(f).get("_imports", {}).get(pid, []))
+
+
 def strip_comments(src):
     # remove /- ... -/ (nested not handled beyond one level, good enough for grep) and -- ...
     out, depth, i = [], 0, 0
